@@ -124,9 +124,11 @@ static int check_f(AsmContext *asm_context, int value)
 
 static int check_f_flag(AsmContext *asm_context, int value, int flag)
 {
+  // The instruction is assembled all the same (tests/comparison has
+  // btsts.w 0x1201, #0x3), so this is a warning, not an error.
   if (flag != FLAG_B && (value & 1) != 0)
   {
-    print_error(asm_context, "Address not on 16 bit boundary");
+    print_warning(asm_context, "Address not on 16 bit boundary");
   }
 
   if (value < 0 || value > 0x1fff)
@@ -142,7 +144,7 @@ static int check_f_64k(AsmContext *asm_context, int value)
 {
   if ((value & 1) != 0)
   {
-    print_error(asm_context, "Address not on 16 bit boundary");
+    print_warning(asm_context, "Address not on 16 bit boundary");
   }
 
   if (value < 0 || value > 0xfffe)
